@@ -16,12 +16,14 @@ import (
 	consensusGenesis "github.com/oasisprotocol/oasis-core/go/consensus/genesis"
 	"github.com/oasisprotocol/oasis-core/go/consensus/cometbft/api"
 	beaconState "github.com/oasisprotocol/oasis-core/go/consensus/cometbft/apps/beacon/state"
+	governanceApi "github.com/oasisprotocol/oasis-core/go/consensus/cometbft/apps/governance/api"
 	consensusState "github.com/oasisprotocol/oasis-core/go/consensus/cometbft/apps/consensus/state"
 	registryState "github.com/oasisprotocol/oasis-core/go/consensus/cometbft/apps/registry/state"
 	schedulerapp "github.com/oasisprotocol/oasis-core/go/consensus/cometbft/apps/scheduler"
 	schedulerState "github.com/oasisprotocol/oasis-core/go/consensus/cometbft/apps/scheduler/state"
 	stakingapp "github.com/oasisprotocol/oasis-core/go/consensus/cometbft/apps/staking"
 	stakingState "github.com/oasisprotocol/oasis-core/go/consensus/cometbft/apps/staking/state"
+	governance "github.com/oasisprotocol/oasis-core/go/governance/api"
 	registry "github.com/oasisprotocol/oasis-core/go/registry/api"
 	scheduler "github.com/oasisprotocol/oasis-core/go/scheduler/api"
 	staking "github.com/oasisprotocol/oasis-core/go/staking/api"
@@ -400,4 +402,29 @@ func (e *env) endBlock() string {
 		return "endblock -"
 	}
 	return "endblock " + strings.Join(s, ",")
+}
+
+// changeParams submits a governance change-parameters proposal to the real scheduler application:
+// first the validation message (proposal submission), then, if that passes, the apply message (proposal
+// closed). Returns whether the change was accepted; the world's parameters are re-read from state.
+func (e *env) changeParams(w *world, minV, maxV *int, dist *uint8) bool {
+	e.syncState(w)
+	ch := scheduler.ConsensusParameterChanges{MinValidators: minV, MaxValidators: maxV}
+	if dist != nil {
+		d := scheduler.VotingPowerDistribution(*dist)
+		ch.VotingPowerDistribution = &d
+	}
+	prop := &governance.ChangeParametersProposal{Module: scheduler.ModuleName, Changes: cbor.Marshal(ch)}
+	ctx := e.appState.NewContext(api.ContextEndBlock)
+	defer ctx.Close()
+	accepted := false
+	if res, err := e.app.ExecuteMessage(ctx, api.Message{Kind: governanceApi.MessageValidateParameterChanges, Data: prop}); err == nil && res != nil {
+		if res, err = e.app.ExecuteMessage(ctx, api.Message{Kind: governanceApi.MessageChangeParameters, Data: prop}); err == nil && res != nil {
+			accepted = true
+		}
+	}
+	p, err := schedulerState.NewMutableState(ctx.State()).ConsensusParameters(ctx)
+	must(err)
+	w.p.minV, w.p.maxV, w.p.maxPer, w.p.dist = p.MinValidators, p.MaxValidators, p.MaxValidatorsPerEntity, uint8(p.VotingPowerDistribution)
+	return accepted
 }
